@@ -12,8 +12,8 @@ def check(tier, seed, only=None):
         raise evidence.Undecided("extraction broke: %s" % e)
     if tier == "quick":
         # the closed-form window hash makes the scan-loop and run() obligations expensive (tens of minutes):
-        # quick proves table, init, reset; the loop contracts run in the thorough tier
-        jobs = [j for j in jobs if j.name in ("rolling/table_pinned", "rolling/init", "rolling/reset")]
+        # quick proves table and init; reset, the scan-loop contract and run() are attempted in the thorough tier
+        jobs = [j for j in jobs if j.name in ("rolling/table_pinned", "rolling/init")]
     if only:
         jobs = [j for j in jobs if any(s in j.name for s in only.split(","))]
 
@@ -41,7 +41,7 @@ def check(tier, seed, only=None):
     rep.assumptions.append("the library's table rolling_hash2_table1 is a non-const global: its initial image is proved equal to the pinned table, and no library function writes it (frame clauses of every contract)")
     rep.notes.append("observation: _rolling_hash2_run forms the pointer `buffer - w` (before the start of the caller's buffer) to pass it to the scan; "
                      "CBMC's pointer-overflow check is switched off for this translation unit for that reason; no access below buffer[0] happens (bounds obligations discharged)")
-    rep.notes.append("quick tier proves table pin, init and reset; the scan-loop contract (run_until_base) and _rolling_hash2_run are proved in the thorough tier only (cost)")
+    rep.notes.append("quick tier proves table pin and init; reset, the scan-loop contract (run_until_base) and _rolling_hash2_run are attempted in the thorough tier only: with the closed-form 48-term window hash they did not finish within 30-60 minutes on this image (minisat) or ran out of memory (cadical), so for them the claim rests on the bounded native checks")
     return rep.finish(
         "goto-instrument --dfcc --enforce-contract <fn> [--replace-call-with-contract ...] --apply-loop-contracts; cbmc --bounds-check --pointer-check --unwind 260 --unwinding-assertions",
         "window hash specified in closed form H(e) = XOR_{j<w} rol64(T1[byte(e-j)], j) over the pinned table; contracts stated for one arbitrary witness position")
